@@ -39,10 +39,10 @@ class Runaway(BaseException):
 
 def plan(tier, seed):
     specs = []
-    depth = 2 if tier == 'quick' else 3
+    depth = 2 if tier == 'quick' else 4
     for ci in range(len(CURVES)):
         specs.append({'name': 'bfs-%d' % ci, 'mode': 'bfs', 'curve': ci, 'depth': depth})
-    n = 26 if tier == 'quick' else 90
+    n = 26 if tier == 'quick' else 320
     for k in range(n):
         specs.append({'name': 'rand-%d' % k, 'mode': 'random', 'rseed': seed * 7877 + k,
                       'n_hist': 3 if tier == 'quick' else 6,
